@@ -4,10 +4,14 @@
 
    The Go struct stores delta = nbins / (max - min); the model recomputes the position from
    (min, max, nbins).  [wf] is the representation invariant that links the two; it is
-   established by NewLinearHist and preserved by Add (both proved here). *)
+   established by NewLinearHist and preserved by Add (both proved here).
+
+   stats/hist.go HistogramQuantile / HistogramIQR take a Histogram INTERFACE: its methods
+   Counts and BinToValue, math.NaN() and the final panic are opaque parameters of the generated
+   definitions (countsv, btv, nanv, panicv), and the tie holds for all of them. *)
 From Coq Require Import ZArith NArith QArith Qround Qabs List Lia Lqa.
 From MM Require Import Base.Num Base.GoSem Model.Hist.
-From MMGen Require Import Gen_stats_types Gen_stats_linearhist.
+From MMGen Require Import Gen_stats_types Gen_stats_linearhist Gen_stats_hist.
 Import ListNotations.
 Local Open Scope Q_scope.
 
@@ -82,4 +86,81 @@ Theorem tie_LinearHist_BinToValue : forall (h : LinearHist_rec) (bin : Q), wf h 
 Proof.
   intros [mn mx d lo hi bins] bin Hwf. unfold wf in Hwf. unfold gen_LinearHist_BinToValue, lin_bin_to_value. proj.
   rewrite Hwf. unfold Qdiv. rewrite Qinv_mult_distr, Qinv_involutive. ring.
+Qed.
+
+(* ====================================================================== *)
+(* hist.go: HistogramQuantile (rank walk) and HistogramIQR                  *)
+(* ====================================================================== *)
+
+Definition qres_val (btv : Q -> Q) (nanv panicv : Q) (r : qres) : Q :=
+  match r with
+  | QNaN => nanv
+  | QAt b j c => btv (Qofnat b + QofN j / QofN c)
+  | QPanic => panicv
+  end.
+
+(* total := under + over; for _, count := range counts { total += count } *)
+Lemma total_fold (f : N -> N -> N) : (forall a c, f a c = go_uadd 64 a c) ->
+  forall counts acc, (acc + Nsum counts < 2 ^ 64)%N -> fold_left f counts acc = (acc + Nsum counts)%N.
+Proof.
+  intros Hf. induction counts as [|c t IH]; intros acc H; simpl in *.
+  - lia.
+  - rewrite Hf. unfold go_uadd. rewrite wrap_u_small by (change (2 ^ Z.to_N 64)%N with (2 ^ 64)%N; lia).
+    rewrite IH by lia. lia.
+Qed.
+
+(* the rank walk with its early return, for any step function that satisfies the two
+   equations of the generated loop body *)
+Section Walk.
+  Variables (btv : Q -> Q) (panicv : Q).
+  Variable step : option Q * N -> Z * N -> option Q * N.
+  Hypothesis step_done : forall r g k c, step (Some r, g) (k, c) = (Some r, g).
+  Hypothesis step_go : forall g k c, step (None, g) (k, c) =
+    if (g <=? c)%N then (Some (btv (go_i2f k + go_u2f g / go_u2f c)), g) else (None, go_usub 64 g c).
+
+  Lemma walk_done l : forall r g k, fold_left step (enum_from k l) (Some r, g) = (Some r, g).
+  Proof. induction l as [|c t IH]; intros r g k; simpl; [reflexivity|]. rewrite step_done. apply IH. Qed.
+
+  Lemma walk_tie nanv : forall counts g b,
+    (let '(ret, _) := fold_left step (enum_from (Z.of_nat b) counts) (None, g) in
+     match ret with Some r => r | None => panicv end) =
+    qres_val btv nanv panicv (rank_walk counts g b).
+  Proof.
+    induction counts as [|c t IH]; intros g b; simpl.
+    - reflexivity.
+    - rewrite step_go. destruct (g <=? c)%N eqn:E.
+      + rewrite walk_done. reflexivity.
+      + apply N.leb_gt in E. rewrite go_usub_le by lia.
+        replace (Z.of_nat b + 1)%Z with (Z.of_nat (S b)) by lia. apply IH.
+  Qed.
+End Walk.
+
+Theorem tie_HistogramQuantile : forall (btv : Q -> Q) (nanv panicv : Q) (under : N) (counts : list N) (over : N) (q : Q),
+  (h_total (mkH under counts over) < 2 ^ 64)%N ->
+  gen_HistogramQuantile btv (under, counts, over) nanv panicv q =
+  qres_val btv nanv panicv (hist_quantile (mkH under counts over) q).
+Proof.
+  intros btv nanv panicv under counts over q H. unfold h_total in H. proj.
+  unfold gen_HistogramQuantile, hist_quantile, hist_quantile_goal, hist_goal, h_total. proj. cbv zeta.
+  rewrite (total_fold _ (fun a c => eq_refl)) by
+    (unfold go_uadd; rewrite wrap_u_small by (change (2 ^ Z.to_N 64)%N with (2 ^ 64)%N; lia); lia).
+  unfold go_uadd. rewrite !(wrap_u_small 64 (under + over)) by (change (2 ^ Z.to_N 64)%N with (2 ^ 64)%N; lia).
+  rewrite !go_f2u_floor. unfold go_u2f.
+  set (goal := Z.to_N (Qfloor (QofN (under + over + Nsum counts) * q))).
+  rewrite (go_usub_le 64 (under + over + Nsum counts) over) by lia.
+  destruct ((goal <=? under)%N || (under + over + Nsum counts - over <? goal)%N) eqn:E; [reflexivity|].
+  apply Bool.orb_false_iff in E. destruct E as [E1 E2]. apply N.leb_gt in E1.
+  rewrite go_usub_le by lia.
+  apply (walk_tie btv panicv _ (fun r g k c => eq_refl)) with (b := 0%nat).
+  intros g k c. destruct (g <=? c)%N; reflexivity.
+Qed.
+
+Theorem tie_HistogramIQR : forall (btv : Q -> Q) (nanv panicv : Q) (under : N) (counts : list N) (over : N),
+  (h_total (mkH under counts over) < 2 ^ 64)%N ->
+  gen_HistogramIQR btv (under, counts, over) nanv panicv =
+  qres_val btv nanv panicv (hist_quantile (mkH under counts over) (3 # 4)) -
+  qres_val btv nanv panicv (hist_quantile (mkH under counts over) (1 # 4)).
+Proof.
+  intros btv nanv panicv under counts over H. unfold gen_HistogramIQR.
+  rewrite !tie_HistogramQuantile by exact H. reflexivity.
 Qed.
